@@ -97,6 +97,9 @@ Definition dispatch (op : string) (args : list tree) : tree :=
                            | None => Ok None
                            | Some p => do y <- sid_factory Ld (FromPath p c2); Ok (Some y)
                            end))
+  | "path_owner", [L p; L cfg] =>
+      t_out (fun xp => N [t_sid (fst xp); t_opt L (snd xp)])
+            (do x <- sid_factory Ld (FromPath p cfg); do pp <- sid_path Ld x cfg; Ok (x, pp))
   | "eq", [a; b] => with_sid a (fun x => with_sid b (fun y => t_bool (sid_eqb x y)))
   | "to_dict", [L q] => t_out of_pairs (to_dict q)
   | "to_string", [d] => match t_pairs d with Some d => L (to_string d) | None => bad end
